@@ -174,6 +174,25 @@ def seqHdrInForce (pub : List (Nat × Nat × Bytes)) (inc : List Nat) (got : Lis
         (lv, la, ok && (match inForce isA i with | none => true | some h => la == some h))
       else acc) (none, none, true)).2.2
 
+/-- C16 "a new publisher starts clean": whatever consumer (k, id) receives is either published after it
+    joined, or was published earlier by the publisher that is on at the moment of the join. A message that
+    equals several published ones is attributed to whichever makes the verdict `ok`. -/
+def noStale (evs : List Ev) (pub : List (Nat × Nat × Bytes)) (inc : List Nat) (k : Kind) (id : Nat)
+    (got : List (Nat × Nat × Bytes)) : Bool :=
+  -- state at the join: (found, publisher on, incarnation, messages published so far)
+  let r := evs.foldl (fun (acc : Bool × Bool × Nat × Nat) e =>
+    let (found, on, i, n) := acc
+    if found then acc else
+    match e with
+    | .addPub => if on then acc else (false, true, i + 1, n)
+    | .delPub => (false, false, i, n)
+    | .msg m => if on && !m.payload.isEmpty then (false, on, i, n + 1) else acc
+    | .join k' id' => if k' == k && id' == id then (true, on, i, n) else acc
+    | _ => acc) (false, false, 0, 0)
+  let (found, on, i, n) := r
+  !found || got.all fun x =>
+    (List.range pub.length).any fun j => pub.getD j (0, 0, []) == x && (j ≥ n || (on && inc.getD j 0 == i))
+
 def decodeRtmp (b : Bytes) : Option (List (Nat × Nat × Bytes)) :=
   (ChunkSpec.read Gen.localChunkSize b).map fun ms => ms.map fun m => (m.typ, m.ts, m.payload)
 
@@ -205,6 +224,8 @@ def oracle (cfg : Cfg) (evs : List Ev) (impl : String) : String :=
         let cached := if kk == .rtmp then cfg.rtmpCache else cfg.flvCache
         if kk != .record && cached && !seqHdrInForce pub (publishedInc evs) got then
           "bad:frame-not-preceded-by-the-sequence-header-in-force:" ++ k else
+        if kk != .record && !noStale evs pub (publishedInc evs) kk idn got then
+          "bad:received-data-of-an-earlier-publisher:" ++ k else
         let v := contiguousRun (if k.startsWith "r" then cfg.rtmpCap else if k.startsWith "R" then 0 else cfg.flvCap) pub got; if v.startsWith "bad" then v ++ ":" ++ k else v
     | _ => "bad:unparsable"
   (verdicts.find? (·.startsWith "bad")).getD "ok"
